@@ -61,7 +61,7 @@ theorem filter_ne_eq_erase {l : List Nat} (hn : l.Nodup) (v : Nat) :
   rw [hn.erase_eq_filter]
   apply List.filter_congr
   intro x _
-  simp
+  by_cases h : x = v <;> simp [h]
 
 theorem filter_id_treeOf (s : Store) (f v : Nat) :
     ((fun t : Tree => decide (t.id ≠ v)) ∘ treeOf s f) = fun c => decide (c ≠ v) := by
